@@ -10,10 +10,11 @@
     Statements of the property that are false of the code as it is are kept as [_refuted]
     with their witness: a rooted reference whose root has a tip child (the other root branch
     is an inner branch with p = 1). *)
-From Coq Require Import String ZArith QArith Bool Arith Permutation List.
+From Coq Require Import String NArith ZArith QArith Bool Arith Permutation List.
 From GT Require Import Base.UTree Spec.Obs Spec.Support Model.Support
      Proofs.SupportBase Proofs.SupportMTD Proofs.SupportClosed Proofs.SupportSpec Proofs.SupportDomain
-     Proofs.SupportInvariance Proofs.SupportReroot.
+     Proofs.SupportInvariance Proofs.SupportReroot
+     Model.Index Model.HashMap Model.EdgeIndex Proofs.IndexSplit Proofs.SupportIndex.
 Import ListNotations.
 Local Close Scope Q_scope.
 Local Open Scope string_scope.
@@ -21,19 +22,24 @@ Local Open Scope string_scope.
 (** * (i) the post-order recursion computes the transfer index *)
 Theorem min_transfer_dist_spec :
   forall (ref boot : utree) (e : einfo) (c : utree),
-    good ref -> good boot ->
+    Proofs.SupportBase.good ref -> Proofs.SupportBase.good boot ->
     (forall x, In x (leaves ref) <-> In x (leaves boot)) ->
     In (e, c) (edges ref) ->
-    1 <= topo_depth ref c ->
     min_transfer_dist (length (tips ref)) (topo_depth ref c) (ntax_right c) (below c) false boot
     = delta (leaves ref) (light (leaves ref) (leaves c)) boot.
-Proof. exact min_transfer_dist_delta. Qed.
+Proof. exact min_transfer_dist_delta_good. Qed.
 Print Assumptions min_transfer_dist_spec.
+
+(** p >= 1 for every branch of a good tree *)
+Theorem light_side_nonempty :
+  forall ref e c, Proofs.SupportBase.good ref -> In (e, c) (edges ref) -> 1 <= topo_depth ref c.
+Proof. exact topo_depth_pos. Qed.
+Print Assumptions light_side_nonempty.
 
 (** the variant TBE runs (early stop at distance 1, only called when the index lookup failed) *)
 Theorem min_transfer_dist_absent_spec :
   forall (ref boot : utree) (e : einfo) (c : utree),
-    good ref -> good boot ->
+    Proofs.SupportBase.good ref -> Proofs.SupportBase.good boot ->
     (forall x, In x (leaves ref) <-> In x (leaves boot)) ->
     In (e, c) (edges ref) ->
     2 <= topo_depth ref c ->
@@ -47,7 +53,7 @@ Print Assumptions min_transfer_dist_absent_spec.
     is the transfer index *)
 Theorem tree_dist_spec :
   forall (ref boot : utree) (e : einfo) (c : utree),
-    good ref -> good boot ->
+    Proofs.SupportBase.good ref -> Proofs.SupportBase.good boot ->
     (forall x, In x (leaves ref) <-> In x (leaves boot)) ->
     In (e, c) (edges ref) ->
     2 <= topo_depth ref c ->
@@ -184,7 +190,7 @@ Theorem rooting_of_reference :
   forall ref ref' boots e c e' c',
     domain ref boots -> rearranged ref ref' ->
     In (e, c) (edges ref) -> In (e', c') (edges ref') ->
-    same_split (leaves ref) (leaves c) (leaves c') = true ->
+    Spec.Support.same_split (leaves ref) (leaves c) (leaves c') = true ->
     2 <= topo_depth ref c -> 2 <= topo_depth ref' c' -> boots <> [] ->
     fbp_val ref boots c = fbp_val ref' boots c' /\ tbe_val ref boots c = tbe_val ref' boots c'.
 Proof. exact reference_rooting. Qed.
@@ -209,7 +215,7 @@ Print Assumptions tip_branches_get_no_support.
 (** * collections on other taxa are refused, the others accepted *)
 Theorem other_taxa_rejected :
   forall ref boots,
-    good ref -> Forall good boots ->
+    Proofs.SupportBase.good ref -> Forall Proofs.SupportBase.good boots ->
     (exists b, In b boots /\ ~ same_taxa_p ref b) ->
     oerr (fbp ref boots) <> "" /\ oerr (tbe ref boots) <> "".
 Proof. exact foreign_taxa_rejected. Qed.
@@ -219,6 +225,38 @@ Theorem same_taxa_not_rejected :
   forall ref boots, domain ref boots -> oerr (fbp ref boots) = "" /\ oerr (tbe ref boots) = "".
 Proof. exact same_taxa_accepted. Qed.
 Print Assumptions same_taxa_not_rejected.
+
+(** * the edge index is a set of bipartitions
+    [index_has] of the model against the hash map of tree/edgeindex.go + hashmap/hashmap.go as
+    modelled for C04 (bucket array, FNV hash codes of tip names, rehash): any capacity, any resize
+    policy.  [puts]: the PutEdgeValue calls (keys = rows of the kept branches of the bootstrap
+    tree), then one Value call with the row of a reference branch. *)
+Theorem fbp_edge_index_is_a_set_of_bipartitions :
+  forall need cap ref boot puts q ecq rs mf,
+    Proofs.SupportBase.good ref -> Proofs.SupportBase.good boot -> Permutation (leaves ref) (leaves boot) ->
+    (cap < W64)%N ->
+    (forall p, In p puts -> exists ec, branch_row boot ec (ek_row (fst (fst p))) /\ negb (is_tip (snd ec)) = true) ->
+    (forall ec, In ec (edges boot) -> negb (is_tip (snd ec)) = true ->
+                exists p, In p puts /\ branch_row boot ec (ek_row (fst (fst p)))) ->
+    branch_row ref ecq (ek_row q) ->
+    ei_run need (new_edge_index cap) (map put_op puts ++ [EIValue q]) = Some (rs, mf) ->
+    exists r, rs = map (fun _ => EIOk) puts ++ [EIVal r] /\
+              (r <> None <-> index_has (tip_names ref) (fbp_index boot) (below (snd ecq)) = true).
+Proof. exact fbp_index_lookup. Qed.
+Print Assumptions fbp_edge_index_is_a_set_of_bipartitions.
+
+Theorem tbe_edge_index_is_a_set_of_bipartitions :
+  forall need cap ref boot puts q ecq rs mf,
+    Proofs.SupportBase.good ref -> Proofs.SupportBase.good boot -> Permutation (leaves ref) (leaves boot) ->
+    (cap < W64)%N ->
+    (forall p, In p puts -> exists ec, branch_row boot ec (ek_row (fst (fst p)))) ->
+    (forall ec, In ec (edges boot) -> exists p, In p puts /\ branch_row boot ec (ek_row (fst (fst p)))) ->
+    branch_row ref ecq (ek_row q) ->
+    ei_run need (new_edge_index cap) (map put_op puts ++ [EIValue q]) = Some (rs, mf) ->
+    exists r, rs = map (fun _ => EIOk) puts ++ [EIVal r] /\
+              (r <> None <-> index_has (tip_names ref) (tbe_index boot) (below (snd ecq)) = true).
+Proof. exact tbe_index_lookup. Qed.
+Print Assumptions tbe_edge_index_is_a_set_of_bipartitions.
 
 (** * the hypotheses are satisfiable *)
 Example domain_inhabited : domain w_ref [w_boot].
